@@ -62,6 +62,8 @@ type exec struct {
 	nondets []NondetVal
 
 	floatMag     uint
+	floatRel     bool
+	roundMemo    map[*smt.Term]*smt.Term
 	floatErrVars int
 
 	known    []knownRegion
